@@ -385,7 +385,12 @@ class DefaultPredictionStrategy(object):
         if settings.skip_posterior_variances.on():
             return ZeroLinearOperator(*test_test_covar.size())
 
-        if settings.fast_pred_var.off():
+        # Missing (NaN) observations must not reduce the predictive uncertainty: condition on the observed ones only
+        nan_policy = settings.observation_nan_policy.value()
+        missing = torch.isnan(self.train_labels) if nan_policy != "ignore" else None
+        has_missing = missing is not None and bool(missing.any())
+
+        if settings.fast_pred_var.off() or has_missing:
             dist = self.train_prior_dist.__class__(
                 torch.zeros_like(self.train_prior_dist.mean), self.train_prior_dist.lazy_covariance_matrix
             )
@@ -395,6 +400,21 @@ class DefaultPredictionStrategy(object):
                 train_train_covar = self.likelihood(dist, self.train_inputs).lazy_covariance_matrix
 
             test_train_covar = to_dense(test_train_covar)
+            if has_missing and nan_policy == "mask":
+                # Same convention as the mean cache: an output missing in any batch element is masked for the batch
+                observed = settings.observation_nan_policy._get_observed(
+                    self.train_labels, torch.Size((self.train_labels.shape[-1],))
+                )
+                train_train_covar = MaskedLinearOperator(
+                    train_train_covar.evaluate_kernel(), observed.reshape(-1), observed.reshape(-1)
+                )
+                test_train_covar = test_train_covar[..., observed]
+            elif has_missing:  # 'fill': decouple the missing rows / columns (unit diagonal keeps the solve unique)
+                kernel_mask = (~missing).to(test_train_covar.dtype)
+                test_train_covar = test_train_covar * kernel_mask[..., None, :]
+                kernel_mask = kernel_mask[..., None] * kernel_mask[..., None, :]
+                torch.diagonal(kernel_mask, dim1=-2, dim2=-1)[...] = 1
+                train_train_covar = to_linear_operator(train_train_covar.to_dense() * kernel_mask)
             train_test_covar = test_train_covar.transpose(-1, -2)
             covar_correction_rhs = train_train_covar.solve(train_test_covar)
             # For efficiency
